@@ -10,6 +10,8 @@ mod verify_env;
 
 pub use crate::error::{ScriptError, TransactionScriptError};
 pub use crate::scheduler::{ROOT_VM_ID, Scheduler};
+#[cfg(feature = "verif-hooks")]
+pub use crate::scheduler::verif_hook;
 pub use crate::syscalls::generator::generate_ckb_syscalls;
 pub use crate::types::{
     ChunkCommand, DataLocation, DataPieceId, RunMode, ScriptGroup, ScriptGroupType, ScriptVersion,
